@@ -765,6 +765,23 @@ def _parser_outputs(repo, rep):
     rep.count("parser_output_names", n)
     if n < 8:
         raise AnalysisError("parser outputs vanished (%d)" % n)
+    # the attribute fields match_tag fills in by hand: 'value' becomes the
+    # clause of a statement (and the token of its errors), so what is stored
+    # there must come out of the tag token -- also the empty value of an
+    # attribute written without one (<p tal:content>)
+    mt = repo.func("chameleon.parser.match_tag")
+    stores = [n for n in ast.walk(mt.node) if isinstance(n, ast.Assign)
+              and isinstance(n.targets[0], ast.Subscript)
+              and isinstance(n.targets[0].slice, ast.Constant)
+              and n.targets[0].slice.value == "value"]
+    consts = [n for n in stores if isinstance(n.value, ast.Constant)]
+    rep.check(len(stores) >= 2 and not consts, "R11.2", mt.qualname,
+              "every 'value' field of a dissected attribute is cut out of "
+              "the tag token (no literal: an error about the statement is "
+              "located at the attribute, not at offset 0)",
+              construct="attr-value-positioned",
+              where=L.where(mt, consts[0].lineno) if consts else L.where(mt),
+              detail="; ".join(src(n) for n in consts))
     # every tag token is dissected itself: parse_tag reaches match_tag(token)
     # on every returning path (a table of previously seen, equal-looking tags
     # would hand out the attribute tokens -- and positions -- of the first)
